@@ -404,3 +404,24 @@ func VerifC12_WriteHas() {
 	vAssert(len(r.recs) == 2, "a caller did not return")
 	verifCheckDedup(r, u)
 }
+
+// VerifC12_TwoQueues: two write de-duplication queues over two different stores (two targets in
+// one process) store the same chunk at the same time: each store gets its own write and each
+// caller the result of its own store - requests are de-duplicated per queue, not per process.
+func VerifC12_TwoQueues() {
+	vPreempt(1)
+	ua, ub := &verifUpstream{}, &verifUpstream{}
+	qa, qb := NewWriteDedupQueue(ua), NewWriteDedupQueue(ub)
+	chunk := NewChunk([]byte{7, 7})
+	var ea, eb error
+	var wg sync.WaitGroup
+	wg.Add(2)
+	go func() { defer wg.Done(); ea = qa.StoreChunk(chunk) }()
+	go func() { defer wg.Done(); eb = qb.StoreChunk(chunk) }()
+	wg.Wait()
+	vCover("both-returned")
+	vAssert(len(ua.calls) == 1 && len(ub.calls) == 1, "a store did not get its own write (requests de-duplicated across queues?)")
+	if len(ua.calls) == 1 && len(ub.calls) == 1 {
+		vAssert(ea == ua.calls[0].err && eb == ub.calls[0].err, "a caller got the result of the other queue's store")
+	}
+}
